@@ -336,3 +336,59 @@ Proof.
   intros H Hi. unfold request_outcome. rewrite inner_https by exact H.
   rewrite transport_https, Hi, andb_true_r. reflexivity.
 Qed.
+
+(* ================================================================== 5. which host mitm-domains judges
+   req.URL.Hostname() of a CONNECT authority: the host without port; bracketed IPv6 without brackets. *)
+Lemma all_digits_no_byte c port : all_digits port = true -> is_digit c = false -> has_byte c port = false.
+Proof.
+  intros Hd Hc. induction port as [|d port IH]; [reflexivity|].
+  simpl in Hd. apply andb_true_iff in Hd as [Hd1 Hd2].
+  rewrite has_byte_cons, (IH Hd2), orb_false_r.
+  destruct (N.eqb c d) eqn:E; [apply N.eqb_eq in E; subst; congruence|reflexivity].
+Qed.
+
+Lemma firstn_app_exact {A} (a c : list A) : firstn (length a) (a ++ c) = a.
+Proof. rewrite firstn_app, Nat.sub_diag, firstn_all. simpl. apply app_nil_r. Qed.
+
+Lemma skipn_app_exact {A} (a c : list A) : skipn (length a) (a ++ c) = c.
+Proof. rewrite skipn_app, Nat.sub_diag, skipn_all. reflexivity. Qed.
+
+Lemma url_hostname_plain host port :
+  has_byte COLON host = false -> all_digits port = true ->
+  (match host with c0 :: _ => N.eqb c0 LBR = false | [] => True end) ->
+  url_hostname (host ++ COLON :: port) = host.
+Proof.
+  intros Hc Hd Hb. unfold url_hostname.
+  assert (has_byte COLON port = false) as Pc by (apply all_digits_no_byte; [exact Hd|reflexivity]).
+  assert (last_index COLON (host ++ COLON :: port) = Some (length host)) as ->.
+  { rewrite (last_index_app_some COLON host (COLON :: port) 0); [f_equal; lia|].
+    simpl. rewrite (last_index_none_of_index COLON port) by (apply has_byte_false_index; exact Pc). reflexivity. }
+  replace (S (length host)) with (length (host ++ [COLON])) by (rewrite app_length; simpl; lia).
+  replace (host ++ COLON :: port) with ((host ++ [COLON]) ++ port) by (rewrite <- app_assoc; reflexivity).
+  rewrite skipn_app_exact, Hd. rewrite <- app_assoc. cbn [app]. rewrite firstn_app_exact.
+  destruct host as [|c0 r]; [reflexivity|]. rewrite Hb. reflexivity.
+Qed.
+
+Lemma has_suffix_snoc (s : str) c : has_suffix (s ++ [c]) [c] = true.
+Proof. unfold has_suffix. rewrite rev_app_distr. simpl. rewrite N.eqb_refl. reflexivity. Qed.
+
+Lemma url_hostname_bracketed a port :
+  all_digits port = true ->
+  url_hostname (LBR :: a ++ RBR :: COLON :: port) = a.
+Proof.
+  intro Hd. unfold url_hostname.
+  assert (has_byte COLON port = false) as Pc by (apply all_digits_no_byte; [exact Hd|reflexivity]).
+  set (hd := LBR :: a ++ [RBR]).
+  assert (LBR :: a ++ RBR :: COLON :: port = hd ++ COLON :: port) as E.
+  { unfold hd. cbn [app]. rewrite <- app_assoc. reflexivity. }
+  rewrite E.
+  assert (last_index COLON (hd ++ COLON :: port) = Some (length hd)) as ->.
+  { rewrite (last_index_app_some COLON hd (COLON :: port) 0); [f_equal; lia|].
+    simpl. rewrite (last_index_none_of_index COLON port) by (apply has_byte_false_index; exact Pc). reflexivity. }
+  replace (S (length hd)) with (length (hd ++ [COLON])) by (rewrite app_length; simpl; lia).
+  replace (hd ++ COLON :: port) with ((hd ++ [COLON]) ++ port) by (rewrite <- app_assoc; reflexivity).
+  rewrite skipn_app_exact, Hd. rewrite <- app_assoc. cbn [app]. rewrite firstn_app_exact.
+  unfold hd. rewrite N.eqb_refl.
+  change (LBR :: a ++ [RBR]) with ([LBR] ++ (a ++ [RBR])).
+  rewrite app_assoc, has_suffix_snoc. cbn [andb]. apply removelast_last.
+Qed.
